@@ -428,6 +428,18 @@ def compare_call(S, scn, ci, c, m):
     # ---- rand sets
     if [x["fields"] for x in mr] != [x["rs"]["fields"] for x in ir]:
         cf("randsets.fields", [x["fields"] for x in mr], [x["rs"]["fields"] for x in ir])
+        # the partitions differ, so the per-set comparison has nothing to align; the property itself is still judged on
+        # the values the call returned: the statements of the model's rand sets are the active statements of the Spec
+        if c["outcome"] == "ok":
+            for a in mr:
+                if a["refFail"]:
+                    of("hard-constraint-violated", {"values": dict(zip(names, c["after"])), "top_level_statements": a["refFail"]},
+                       "every active hard constraint holds on the returned values")
+                if a["typeFail"]:
+                    of("value-outside-declared-type", {"values": dict(zip(names, c["after"])), "fields": a["typeFail"]},
+                       "every random field inside its declared type / enumerators")
+            if m["nonrandChanged"]:
+                of("nonrandom-field-changed", m["nonrandChanged"], "non-random fields keep their values")
         return corr, orc, st
     if m["unconstrained"] != [u for u in c["uncon"] if u in names]:
         cf("unconstrained", m["unconstrained"], c["uncon"])
